@@ -58,7 +58,7 @@ func options(r *rand.Rand, popSize int) *neat.Options {
 		MutateLinkWeightsProb: 0.8, MutateToggleEnableProb: 0.1, MutateGeneReenableProb: 0.05,
 		MutateAddNodeProb: 0.2 + r.Float64()*0.5, MutateAddLinkProb: 0.3 + r.Float64()*0.6, MutateConnectSensors: r.Float64() * 0.5,
 		InterspeciesMateRate: r.Float64() * 0.4, MateMultipointProb: 0.4, MateMultipointAvgProb: 0.3, MateSinglepointProb: 0.2,
-		MateOnlyProb: 0.2, RecurOnlyProb: r.Float64() * 0.3, PopSize: popSize, DropOffAge: 3 + r.Intn(15), NewLinkTries: 5 + r.Intn(20),
+		MateOnlyProb: 0.2, RecurOnlyProb: r.Float64() * 0.3, PopSize: popSize, DropOffAge: 3 + r.Intn(15), NewLinkTries: []int{0, 0, 5 + r.Intn(20), 5 + r.Intn(20), 5 + r.Intn(20)}[r.Intn(5)], // 0 = the option left unset (legal)
 		BabiesStolen: 0, NumRuns: 1, NumGenerations: 10, EpochExecutorType: neat.EpochExecutorTypeParallel,
 		GenCompatMethod:    neat.GenomeCompatibilityMethodFast,
 		NodeActivators:     []neatmath.NodeActivationType{neatmath.SigmoidSteepenedActivation, neatmath.LinearActivation},
